@@ -395,6 +395,24 @@ func genHistCase(rng *rand.Rand, prop string) *histCase {
 			c.Steps = append(c.Steps, rq)
 		}
 	}
+	if rng.Intn(4) == 0 {
+		// drawn last, so that everything else about a history is what it was before: method lists are spelled in
+		// lower or mixed case from their second item on ("GET,post", "POST,Get,head") - Routes() registers the
+		// same methods, and Headers() on what it returns constrains every one of them
+		for i := range c.Steps {
+			if st := &c.Steps[i]; st.Op == "route" && strings.Contains(st.Method, ",") {
+				l := strings.Split(st.Method, ",")
+				for k := 1; k < len(l); k++ {
+					if k%2 == 1 {
+						l[k] = strings.ToLower(l[k])
+					} else {
+						l[k] = l[k][:1] + strings.ToLower(l[k][1:])
+					}
+				}
+				st.Method = strings.Join(l, ",")
+			}
+		}
+	}
 	return c
 }
 
@@ -450,7 +468,7 @@ func judgeGrid(w *core.W, c *gridCase) {
 
 func runHist(r *core.Run, prop string) {
 	if prop == "C09" {
-		r.Rule("router histories (6-35 steps): registrations (static-biased pools; fully static, optional static, dynamic routes; single methods, method lists through Routes() and Any; one route in forty is 254-300 segments deep; AutoHead switched at random points - registrations go through Route/Routes/Any, which add no HEAD twin), Headers() calls on 30-70% of routes and again later (0-2 pairs, empty set, empty expression, never-matching expression, differently-cased names), requests with route-directed header sets (matching / non-matching / empty / missing values; one list in twenty-five has 7-14 constraints and requests satisfy all of them or all but one; one request in eight repeats a header on two lines; one in eight is served a second time as the very same request object after a constrained header was changed or removed). Oracle: reference dispatch model restricted to routes whose latest constraint set passes (non-empty value matched by the expression, for every constrained header). non-trivial = distinct requests whose outcome differs from the outcome of the same request with all constraints satisfied (the constraint decided)")
+		r.Rule("router histories (6-35 steps): registrations (static-biased pools; fully static, optional static, dynamic routes; single methods, method lists through Routes() (a quarter of the histories spell the later items in lower or mixed case) and Any; one route in forty is 254-300 segments deep; AutoHead switched at random points - registrations go through Route/Routes/Any, which add no HEAD twin), Headers() calls on 30-70% of routes and again later (0-2 pairs, empty set, empty expression, never-matching expression, differently-cased names), requests with route-directed header sets (matching / non-matching / empty / missing values; one list in twenty-five has 7-14 constraints and requests satisfy all of them or all but one; one request in eight repeats a header on two lines; one in eight is served a second time as the very same request object after a constrained header was changed or removed). Oracle: reference dispatch model restricted to routes whose latest constraint set passes (non-empty value matched by the expression, for every constrained header). non-trivial = distinct requests whose outcome differs from the outcome of the same request with all constraints satisfied (the constraint decided)")
 	} else {
 		r.Rule("router histories interleaving registrations (static, optional-static, dynamic shadowing candidates, several methods and Any), Headers() calls and requests; request paths include every route's text used as a path (raw, canonical, with '?'), instances, extra leading slashes, trailing slash, empty path, escapes. Oracle: route.Tree.Match on a twin tree per method that receives the same AddRoute / SetHeaderMatcher calls in the same order; with hooks the whole shortcut table is enumerated after every step and compared with tree matching on the router's own tree. One (thorough: three) instance with 257x257 (300x300, 363x363) fully static routes of one method, every one requested by its exact text. non-trivial = distinct requests answered through the shortcut (path equals a table key) or differing from a key only by slashes or '?'")
 	}
@@ -476,6 +494,7 @@ func runHist(r *core.Run, prop string) {
 		r.GateCounter("failed-headers-call-then-requests", 50)
 		r.GateCounter("requests-with-repeated-header-lines", 50)
 		r.GateCounter("same-request-served-again-after-header-edit", 50)
+		r.GateCounter("method-list-spelled-in-mixed-case", 200)
 	} else {
 		r.Gate("distinct_nontrivial", r.NonTrivialCount(), 5000)
 		r.GateCounter("requests-compared", int64(n)*4)
@@ -564,6 +583,9 @@ func judgeHist(w *core.W, c *histCase, prop string) {
 				}
 				models[m].Commit(idx, mr, forms)
 				okMethods = append(okMethods, m)
+			}
+			if st.Method != up && len(methods) > 1 {
+				w.Count("method-list-spelled-in-mixed-case")
 			}
 			fr, pan := flameRegisterVia(f, strings.Contains(st.Method, ","), st.Method, st.Route, idx, &hit, &seen)
 			if (pan != nil) != refused {
